@@ -176,7 +176,7 @@ func (m *Model) expand(i *Inst) {
 	}
 	i.ents = []*ent{}
 	for k, e := range i.T.Entries {
-		for _, it := range e.Items() {
+		for _, it := range e.ItemsFor(i.X) {
 			cid := Cid(i.T, k)
 			if it != "" {
 				cid += "." + it
